@@ -2,6 +2,7 @@ import Op2Model.Gen.Constants
 import Op2Model.Gen.Layout
 import Op2Proofs.Vol.Refuse
 import Op2Proofs.Vol.ReadRef
+import Op2Proofs.Vol.Lookup
 /-!
 # C01 — VOL pack → reopen → extract is the identity on file sets; refusals happen before anything is modified
 
@@ -107,6 +108,35 @@ theorem C01_roundtrip (out : Bytes) (files : List InFile) (h : Fits out files)
     rw [em] at h1 h2 h3 h4
     simp only [memberOf] at h1 h2 h3 h4
     exact ⟨h1, h2, h3, h4, extract_of_kind_stream v i _ h3 h4⟩
+
+/-- **looking a member up by name succeeds in any letter case** (`GetIndex`, `Contains`, hence `OpenStream(name)` and
+    `ExtractFile(name, …)`): on the reopened archive, the name of member `i` with an arbitrary subset of its letters
+    flipped is found at index `i`.  `hp`: names are what file names can be (non-empty, no `/`, not `.`). -/
+theorem C01_lookup_any_case (out : Bytes) (files : List InFile) (h : Fits out files)
+    (hn : ∀ f ∈ files, NameOk (nameOf f)) (hp : ∀ f ∈ files, PlainName (nameOf f))
+    (hcap : Spec.headerLen (descOf (sortCI nameOf files)) ≤ allocCap)
+    (b : Bytes) (v : View) (hb : create out files = .ok b) (hv : Vol.open b = .ok v)
+    (i : Nat) (hi : i < (sortCI nameOf files).length) (mask : List Bool) :
+    v.index (Spec.anyCase mask (nameOf (sortCI nameOf files)[i])) = .ok i ∧
+    v.contains (Spec.anyCase mask (nameOf (sortCI nameOf files)[i])) = .ok true := by
+  obtain ⟨b', v', hb', hv', hcount, hnames, _⟩ := C01_roundtrip out files h hn hcap
+  rw [hb] at hb'; simp at hb'; subst hb'
+  rw [hv] at hv'; simp at hv'; subst hv'
+  have hlen : (sortCI nameOf files).length = files.length := (sortCI_perm nameOf files).length_eq
+  have hc : v.count = v.names.length := by rw [hcount, hnames]; simp [hlen]
+  have hpl : ∀ n ∈ v.names, PlainName n := by
+    intro n hn'
+    rw [hnames] at hn'
+    obtain ⟨f, hf, rfl⟩ := List.mem_map.mp hn'
+    exact hp f ((sortCI_perm nameOf files).mem_iff.mp hf)
+  have hnd : NoDupCI id v.names := by
+    rw [hnames, nodup_names_iff]
+    exact h.nodup.perm nameOf (sortCI_perm nameOf files).symm
+  have hi' : i < v.names.length := by rw [hnames]; simpa using hi
+  have e : v.names[i] = nameOf (sortCI nameOf files)[i] := by simp [hnames]
+  have := index_any_case v hc hpl hnd i hi' mask
+  rw [e] at this
+  exact this
 
 /-! ## non-vacuity: three files of sizes 0, 5 and 131 073 (one byte more than the copy chunk), listed out of order -/
 def exFiles : List InFile :=
